@@ -725,6 +725,8 @@ class Interp:
             self.log("loop-exit", st)
 
     def _concrete_seq(self, it: Any) -> Optional[list]:
+        if isinstance(it, EnumRef):
+            return [("enum", it.qualname, k) for k in it.members]          # iterating an Enum class yields its members in definition order
         if isinstance(it, Obj) and "__fields__" in it.attrs:
             return [it.attrs[f_] for f_ in it.attrs["__fields__"]]          # a NamedTuple instance iterates over its fields in declaration order
         if isinstance(it, ListIter):
